@@ -4,7 +4,8 @@ E6: for platform x config x log combinations, output wirings written into the bl
 reference codec: every single assignment (output o = label l), every label pair on the two richest
 outputs, the same-device H/L variants on every pair of outputs, all-outputs-same-label, the empty
 wiring, and the wirings of the shipped snapshots.  Real GeckoAsyncFacade and blocking GeckoFacade are
-built on each.  The blocking facade is additionally run in sub-processes under PYTHONHASHSEED 0..15
+built on each; one long-lived blocking facade per combination is re-scanned (public scan_outputs) on every block after the
+first, so every inventory is also reached from a non-initial state.  The blocking facade is additionally run in sub-processes under PYTHONHASHSEED 0..15
 (it de-duplicates through a set).
 Oracle (independent recomputation from the tables): user devices = the table-ordered distinct device
 keys that (a) prefix some wired label, (b) have a Ud<device> demand item (case-insensitive) and (c) are
@@ -97,6 +98,16 @@ def judge(spa, fac, wired_labels, which):
         d = fac.get_device(k)
         if d is None or d.key != k:
             return ("lookup", f"{which}: get_device({k!r}) returned {d!r}")
+    # the listing and the look-up speak about the SAME devices as pumps/blowers/lights do
+    user = list(fac.pumps) + list(fac.blowers) + list(fac.lights)
+    for d in user:
+        if d.key not in listed:
+            return ("listing", f"{which}: device {d.key} is in the inventory but not in facade.devices {list(listed)[:8]}")
+        if fac.get_device(d.key) is not d:
+            return ("lookup", f"{which}: get_device({d.key!r}) is not the device the inventory holds")
+    stray = [k for k in listed if k in K.DEVICES and k not in [d.key for d in user]]
+    if stray:
+        return ("listing", f"{which}: facade.devices lists user devices {stray} that the wiring does not provide")
     return None
 
 
@@ -194,11 +205,21 @@ def _combo_job(job):
     for name, b in snaps_for(plat)[:3]:
         if len(b) == 1024:
             bases.append(b)
+    reused = None  # one long-lived blocking facade, re-scanned on every block (a client that re-connects / re-scans)
     for bi, base in enumerate(bases):
         for desc, w in (ws if bi == 0 else [("snapshot-wiring", None)] + ws[:40]):
             blk = base if w is None else apply_wiring(spa, base, w)
             st.set_status_block(blk)
             labs = wired_labels_of(spa)
+            if reused is not None:
+                n += 1
+                try:
+                    reused.scan_outputs()
+                    why = judge(spa, reused, labs, "sync-rescan")
+                except Exception as e:  # noqa
+                    why = ("rescan-raised", f"re-scan of a live blocking facade raised {e!r}")
+                if why and not any(b[0][0] == why[0] and b[2] == "sync-rescan" for b in bad):
+                    bad.append((why, desc + " (re-scan after other wirings)", "sync-rescan"))
             for which, build in (("async", build_async), ("sync", build_sync)):
                 n += 1
                 try:
@@ -208,6 +229,8 @@ def _combo_job(job):
                 why = judge(spa, fac, labs, which)
                 if why and not any(b[0][0] == why[0] and b[2] == which for b in bad):
                     bad.append((why, desc, which))
+                if which == "sync" and reused is None:
+                    reused = fac
     return job, n, bad, None
 
 
